@@ -22,18 +22,9 @@ def selftest():
     sem.selftest()
 
 
-def check(case):
-    model = case[1]
-    fm, fails = cm.built(model)
-    if fails:
-        return fails
-    try:
-        res = FMAtomicSets().execute(fm).get_result()
-        engine.tick()
-        sets = [sorted(f.name for f in s) for s in res]
-        sizes = [len(s) for s in res]
-    except Exception as exc:  # noqa: BLE001
-        return [Fail('raises:%s' % type(exc).__name__, str(exc))]
+def judge(res, model):
+    sets = [sorted(f.name for f in s) for s in res]
+    sizes = [len(s) for s in res]
     out = []
     names = sh.names(model)
     flat = [n for s in sets for n in s]
@@ -58,6 +49,22 @@ def check(case):
                 out.append(Fail('mandatory-child-split', {'parent': p, 'child': kids[0], 'sets': sets}))
                 break
     return out
+
+
+def check(case):
+    model = case[1]
+    if case[0] == 'SE':
+        return opscfg.edit_history(model, FMAtomicSets, judge)
+    fm, fails = cm.built(model)
+    if fails:
+        return fails
+    try:
+        res = FMAtomicSets().execute(fm).get_result()
+        engine.tick()
+        [sorted(f.name for f in s) for s in res]
+    except Exception as exc:  # noqa: BLE001
+        return [Fail('raises:%s' % type(exc).__name__, str(exc))]
+    return judge(res, model)
 
 
 def outcome(case):
